@@ -111,12 +111,14 @@ TB_API = ["closed-loop correspondence: the Lean sync model run against the Lean 
 PROPS = {
     "C19": {
         "theorems": C19T,
-        "streams": [{"pkg": "pkg/hooks", "test": "TestVerifHookCalls", "shards": 8, "n_quick": 4000, "n_thorough": 60000, "thorough_seeds": 2}],
-        "nontrivial": ["served-from-cache", "429", "concurrent"],
+        "streams": [{"pkg": "pkg/hooks", "test": "TestVerifHookCalls", "shards": 8, "n_quick": 4000, "n_thorough": 60000, "thorough_seeds": 2},
+                    {"pkg": "pkg/hooks", "test": "TestVerifHookExec", "shards": 8, "n_quick": 32, "n_thorough": 240, "thorough_seeds": 1}],
+        "nontrivial": ["served-from-cache", "429", "concurrent", "timed-out"],
         "rule": "real webhookExecutor.Call with a scripted HTTP client: 1-3 concurrent calls on the same cache key under a random interleaving of "
                 "enrich / round-trip / adjust steps x status codes x ETag and Retry-After headers x body classes (valid, unknown fields, duplicate fields, "
                 "invalid JSON) x strict/loose x cache empty / hit / expired; non-trivial = concurrent calls, a body served from the cache, or a 429; "
-                "distinct = distinct (mode, cache, schedule, answers) text",
+                "distinct = distinct (mode, cache, schedule, answers) text; second stream: executors built by the real NewWebhookExecutor (real HTTP client and "
+                "metrics wrapper) for a controller re-created under the same name with other timeouts, against an in-process hook answering after 0 / 600 ms",
         "trusted_base": TB_COMMON + ["modelled not verified: net/http, sigs.k8s.io/json strict decoding (classified by the harness's four body classes), zcache (present/expired)"],
         "assumptions": ["Retry-After dates are compared on whole seconds; byte-level decoding is library code compared through four representative bodies"],
     },
